@@ -80,7 +80,7 @@ def run(ctx, rep):
             utext(pr[0][1].args[0]) == "market" and utext(pr[0][1].args[1]) == "*" + utext(lp.target)
     if good:
         lpn = [x for x in cfg.live_nodes() if x.kind == "for_init" and x.ast is lp][0]
-        good = not cfg.guards(lpn.id)
+        good = cfg.unconditional(lpn.id)
     rep.check(good, "R1", key(call, None, "every new removal is applied once, unconditionally, before the matching of this update"), call,
               None, "a removal that is registered but applied only under some condition is lost for good")
     rl = [x for x in walk_nodes(call.node.body, ast.For) if utext(x.iter) == "market.market_book.runners"]
